@@ -1,8 +1,8 @@
 """Count-based budgets (the set of runs is a function of VERIF_SEED); soft_s truncates the set (reported),
 hard_s is the wall-clock cap (exit 3)."""
 BUDGETS = {
-    "C17": {"quick": {"runs": 6000, "soft_s": 120, "hard_s": 900}, "thorough": {"runs": 400000, "soft_s": 1500, "hard_s": 3000}},
-    "C16": {"quick": {"runs": 4000, "soft_s": 120, "hard_s": 900}, "thorough": {"runs": 300000, "soft_s": 1500, "hard_s": 3000}},
-    "C12": {"quick": {"runs": 16000, "soft_s": 240, "hard_s": 1200}, "thorough": {"runs": 200000, "soft_s": 2400, "hard_s": 4000}},
-    "C13": {"quick": {"runs": 16000, "soft_s": 240, "hard_s": 1200}, "thorough": {"runs": 200000, "soft_s": 2400, "hard_s": 4000}},
+    "C17": {"quick": {"runs": 30000, "soft_s": 120, "hard_s": 900}, "thorough": {"runs": 400000, "soft_s": 1500, "hard_s": 3000}},
+    "C16": {"quick": {"runs": 24000, "soft_s": 120, "hard_s": 900}, "thorough": {"runs": 300000, "soft_s": 1500, "hard_s": 3000}},
+    "C12": {"quick": {"runs": 24000, "soft_s": 240, "hard_s": 1200}, "thorough": {"runs": 200000, "soft_s": 2400, "hard_s": 4000}},
+    "C13": {"quick": {"runs": 24000, "soft_s": 240, "hard_s": 1200}, "thorough": {"runs": 200000, "soft_s": 2400, "hard_s": 4000}},
 }
